@@ -116,8 +116,9 @@ func (e *engine) pathWalks() {
 	}
 	for k, cfg := range cfgs {
 		name := fmt.Sprintf("pathwalk%d", k)
+		rng := c.Rng.Fork() // forked whether or not the history is wanted: --only must not shift the later histories
 		if e.wantHist(name) {
-			e.pathWalk(name, cfg, c.Rng.Fork())
+			e.pathWalk(name, cfg, rng)
 		}
 	}
 }
